@@ -1,4 +1,188 @@
-import Koreo.Encoder
+/-
+  C11 — Static values in definitions reach results and resources unchanged.
+  Property theorems only; helper lemmas are in `Koreo/Lemmas/Encoder.lean`.
+
+  Model: `Koreo/Encoder.lean` — the REPAIRED `src/koreo/cel/encoder.py` (fixes/F2-encoder.diff):
+  `encodeCel`/`enc`, `encodeStr`, `quoteStr`, `escBody`, `isNumeral`; and the inverse as implemented by
+  celpy 0.3.0: `lexString` (STRING_LIT / MLSTRING_LIT + `celstr`), `lexNumber` (INT_LIT / FLOAT_LIT),
+  and a token-level parser `parse` for the JSON-like subset that `encode_cel` emits.
+  `Koreo/Gen/EncoderTables.lean` is regenerated from the running encoder and from celpy on every run.
+
+  The one gap (DESIGN.md 5/C11): `value_roundtrip` is stated over the token sequence `toks v`.
+  `encoding_is_token_text` proves that the emitted text is exactly the concatenation of those tokens'
+  texts and `string_token_boundary` proves that a string literal followed by ANY text is scanned up to
+  exactly its own closing delimiter; that celpy's lexer also cuts the text at the remaining token
+  boundaries (numbers, `null`/`true`/`false` before `,` `]` `}`, and the six punctuation tokens) is not
+  re-proved — it is covered by the end-to-end oracle of harness/c11.py only.
+
+  On the unrepaired tree the clauses below were false (`a\nb`, `x"""y⏎`, keys with `"` or newline,
+  `inf`, `nan`, ` 12`, `1_0`, `+5`, `١٢`; corpus/C11/*.json): there `escapes_match_source` does not
+  build and the check's oracle reports the failing inputs.
+-/
+import Koreo.Lemmas.Encoder
+import Koreo.Gen.EncoderTables
+
 namespace Koreo.C11
-theorem stub : True := trivial
+open Koreo.Encoder
+
+/-! ## the model's tables are the ones the source has now -/
+
+/-- the translator could read the running encoder and celpy's table -/
+theorem extraction_ok : Koreo.Gen.EncoderTables.extractionOk = true := by decide
+
+/-- what the running `encode_cel` writes between the quotes for each ASCII character is the model's `escChar` -/
+theorem escapes_match_source :
+    Koreo.Gen.EncoderTables.keyBodies
+      = (List.range 128).map (fun i => (escChar (Char.ofNat i)).map Char.toNat) := by decide
+
+/-- the running encoder uses `"""` exactly for the key that contains a quote, `"` otherwise -/
+theorem delimiters_match_source :
+    Koreo.Gen.EncoderTables.keyDelims
+      = (List.range 128).map (fun i => if hasQuote [Char.ofNat i] then 3 else 1) := by decide
+
+/-- celpy's `CEL_ESCAPES` is the model's `escTable` -/
+theorem cel_escapes_match_source :
+    Koreo.Gen.EncoderTables.celEscapes = escTable.map (fun p => (p.1.toNat, p.2.toNat)) := by decide
+
+/-! ## strings: decode ∘ encode = id, for every character list -/
+
+/-- every non-numeral, non-expression string — whatever it contains: quotes, backslashes, newlines,
+    CR, tabs, quote runs, a trailing quote or backslash, any Unicode — is read back by celpy's string
+    lexer, from the text `encode_cel` writes, character for character -/
+theorem string_roundtrip (s : Str) (hn : isNumeral s = false) (he : startsWithEq s = false) :
+    lexString (encodeStr s) = some s := by
+  rw [encodeStr_of_nonnumeral s hn he]
+  exact lexString_quoteStr s
+
+/-- … and the scanner stops exactly at the literal's own closing delimiter whatever text follows it
+    (no character of the value can close the literal early or swallow what comes next) -/
+theorem string_token_boundary (s rest : Str) :
+    (hasQuote s = true → scanLong (escBody s ++ '"' :: '"' :: '"' :: rest) = some (s, rest)) ∧
+    (hasQuote s = false → scanShort (escBody s ++ '"' :: rest) = some (s, rest)) :=
+  ⟨fun _ => scanLong_escBody s rest, fun h => scanShort_escBody s rest h⟩
+
+/-- map keys go through the same string encoder and are never numeralised or spliced:
+    every key is read back exactly (also `12`, `=x`, `k"`, `k⏎`, the empty key) -/
+theorem key_roundtrip (k : Str) : lexString (quoteStr k) = some k :=
+  lexString_quoteStr k
+
+/-- a quoted string is never mistaken for a number -/
+theorem quoted_is_not_a_number (s : Str) : lexNumber (quoteStr s) = none :=
+  lexNumber_quoteStr s
+
+/-! ## the documented exception: decimal numerals, and nothing else -/
+
+/-- a string that is a decimal numeral `-?digits(.digits)?([eE][+-]?digits)?` is written as it stands,
+    the regex's decomposition is faithful to the text, and celpy reads the whole text as ONE number
+    token whose value is the number the numeral denotes -/
+theorem numeral_delivered_as_number (s : Str) (p : NumParts) (h : splitNumeral s = some p) :
+    encodeStr s = s ∧ p.text = s ∧ lexNumber (encodeStr s) = some p.value := by
+  have hn : isNumeral s = true := by simp [isNumeral, h]
+  have hs : encodeStr s = s := by simp [encodeStr, hn]
+  exact ⟨hs, splitNumeral_text s p h, by rw [hs]; exact isNumeral_lexNumber s p h⟩
+
+/-- … an integer when neither a fraction nor an exponent is written, a double otherwise -/
+theorem numeral_type (p : NumParts) :
+    (p.fp = none → p.ex = none → p.value = .int (signed p.neg (digitsVal p.ip))) ∧
+    ((p.fp ≠ none ∨ p.ex ≠ none) → ∃ m x, p.value = normDec p.neg m x) := by
+  constructor
+  · intro h1 h2; simp [NumParts.value, h1, h2]
+  · intro h
+    cases hf : p.fp <;> cases hx : p.ex <;> simp [NumParts.value, hf, hx] at h ⊢ <;> exact ⟨_, _, rfl⟩
+
+/-- stripping the mantissa's trailing zeros does not change the number: m'·10^x' = m·10^x -/
+theorem normDec_value (neg : Bool) (m : Nat) (x : Int) :
+    ∃ m' x', normDec neg m x = .dec neg m' x' ∧
+      ((m = 0 ∧ m' = 0) ∨ (x ≤ x' ∧ m' * 10 ^ (x' - x).toNat = m)) := by
+  induction m using Nat.strongRecOn generalizing x with
+  | _ m ih =>
+    rw [normDec]
+    by_cases h0 : m = 0
+    · exact ⟨0, 0, by simp [h0], Or.inl ⟨h0, rfl⟩⟩
+    · by_cases h10 : m % 10 = 0
+      · obtain ⟨m', x', he, hv⟩ := ih (m / 10) (by omega) (x + 1)
+        refine ⟨m', x', by simp [h0, h10, he], Or.inr ?_⟩
+        rcases hv with ⟨hz, _⟩ | ⟨hle, hv⟩
+        · omega
+        · refine ⟨by omega, ?_⟩
+          have e : (x' - x).toNat = (x' - (x + 1)).toNat + 1 := by omega
+          rw [e, Nat.pow_succ, ← Nat.mul_assoc, hv]
+          omega
+      · exact ⟨m, x, by simp [h0, h10], Or.inr ⟨Int.le_refl _, by simp⟩⟩
+
+/-- everything else is a string: a non-numeral (`inf`, `nan`, ` 12`, `12 `, `1_0`, `+5`, `١٢`, `1.`, `.5` …)
+    is written as a string literal — celpy reads no number from it, and reads the text back exactly -/
+theorem nonnumeral_not_number (s : Str) (hn : isNumeral s = false) (he : startsWithEq s = false) :
+    lexNumber (encodeStr s) = none ∧ lexString (encodeStr s) = some s := by
+  rw [encodeStr_of_nonnumeral s hn he]
+  exact ⟨lexNumber_quoteStr s, lexString_quoteStr s⟩
+
+/-- the look-alikes named in the property are outside the exception -/
+theorem lookalikes_are_not_numerals :
+    isNumeral "inf".toList = false ∧ isNumeral "nan".toList = false ∧ isNumeral "Infinity".toList = false ∧
+    isNumeral " 12".toList = false ∧ isNumeral "12 ".toList = false ∧ isNumeral "12\n".toList = false ∧
+    isNumeral "1_0".toList = false ∧ isNumeral "+5".toList = false ∧ isNumeral "١٢".toList = false ∧
+    isNumeral "1.".toList = false ∧ isNumeral ".5".toList = false ∧ isNumeral "1e".toList = false ∧
+    isNumeral "0x10".toList = false ∧ isNumeral "".toList = false ∧ isNumeral "-".toList = false := by
+  decide
+
+/-! ## whole values -/
+
+/-- the text `encode_cel` writes is exactly the concatenation of the texts of the tokens `toks v` -/
+theorem encoding_is_token_text (v : JVal) : encodeCel v = String.ofList (toksText (toks v)) := by
+  rw [toksText_toks]; rfl
+
+/-- parsing the emitted tokens gives back the value as written — same structure, same keys, strings
+    character for character, integers, the dyadic floats (exactly e/8), booleans, null, empty
+    containers — with numeral strings replaced by their number.  Mutual induction over `JVal`. -/
+theorem value_roundtrip (v : JVal) (h : noExpr v = true) : parse (toks v) = some (numeralise v) := by
+  unfold parse
+  have := pVal_toks v h (toks v).length [] (Nat.le_refl _)
+  rw [List.append_nil] at this
+  rw [this]
+
+/-- what arrives for a float written as e/8 denotes exactly e/8 (= e·125·10⁻³) -/
+theorem float_value_exact (e : Int) :
+    ∃ m x, numeralise (.flt e) = .num (.dec (decide (e < 0)) m x) ∧
+      ((e = 0 ∧ m = 0) ∨ (-3 ≤ x ∧ m * 10 ^ (x + 3).toNat = e.natAbs * 125)) := by
+  obtain ⟨m, x, he, hv⟩ := normDec_value (decide (e < 0)) (e.natAbs * 125) (-3)
+  refine ⟨m, x, by simp [numeralise, he], ?_⟩
+  rcases hv with ⟨h0, hm⟩ | ⟨hle, hv⟩
+  · exact Or.inl ⟨by omega, hm⟩
+  · exact Or.inr ⟨hle, by simpa using hv⟩
+
+/-- strings and keys are not touched by `numeralise` unless the string is a numeral -/
+theorem numeralise_keeps_text (s : String) (hn : isNumeral s.toList = false) :
+    numeralise (.str s) = .str s.toList := by
+  unfold isNumeral at hn
+  cases hp : splitNumeral s.toList with
+  | none => simp [numeralise, numeraliseStr, hp]
+  | some p => simp [hp] at hn
+
+/-! ## non-vacuity: the hypotheses are met by the hard cases themselves -/
+
+/-- `a\nb` (a literal backslash) is written `"a\\nb"` -/
+example : isNumeral ['a', '\\', 'n', 'b'] = false ∧ startsWithEq ['a', '\\', 'n', 'b'] = false ∧
+    encodeStr ['a', '\\', 'n', 'b'] = ['"', 'a', '\\', '\\', 'n', 'b', '"'] := by decide
+
+/-- `x"""y⏎` is written `"""x\"\"\"y\n"""` -/
+example : encodeStr ['x', '"', '"', '"', 'y', '\n']
+    = ['"', '"', '"', 'x', '\\', '"', '\\', '"', '\\', '"', 'y', '\\', 'n', '"', '"', '"'] := by decide
+
+/-- a trailing backslash and a trailing quote -/
+example : encodeStr ['a', '\\'] = ['"', 'a', '\\', '\\', '"'] ∧
+    encodeStr ['a', '"'] = ['"', '"', '"', 'a', '\\', '"', '"', '"', '"'] := by decide
+
+/-- the encodings pinned by tests/koreo/cel/test_encoder.py -/
+example : encodeStr "3213".toList = "3213".toList ∧ encodeStr "72.3".toList = "72.3".toList ∧
+    encodeStr "".toList = "\"\"".toList ∧ encodeStr "=1 + 1".toList = "1 + 1".toList ∧
+    encodeStr "a \"b\"".toList = "\"\"\"a \\\"b\\\"\"\"\"".toList := by decide
+
+/-- a numeral: `-1.50e-3` splits into its parts and denotes −15·10⁻⁴ -/
+example : (splitNumeral "-1.50e-3".toList).map NumParts.text = some "-1.50e-3".toList := by decide
+
+/-- a nested value meeting `noExpr`, with a numeral string, a numeral-looking key, quotes in a key -/
+example : noExpr (.obj [("k\"", .arr [.str "12", .str " 12", .int (-5), .flt (-13), .null, .bool true, .arr [], .obj []]),
+                        ("12", .str "a\\nb")]) = true := by decide
+
 end Koreo.C11
